@@ -251,6 +251,10 @@ fn run_case(c: &Case) -> CaseResult {
             if p1 == q1 || p2 == q2 {
                 return Ok(st);
             }
+            if [p1, q1, p2, q2].iter().any(|p| p.0.abs() > 1000 || p.1.abs() > 1000) {
+                st.label("defining-point-beyond-1e3-skipped");
+                return Ok(st);
+            }
             let (ux, uy) = ((q1.0 - p1.0) as i64, (q1.1 - p1.1) as i64);
             let (vx, vy) = ((q2.0 - p2.0) as i64, (q2.1 - p2.1) as i64);
             let cr = ux * vy - uy * vx;
@@ -273,6 +277,10 @@ fn run_case(c: &Case) -> CaseResult {
                     vensure!(e1 <= TOL && e2 <= TOL, "line-line/point-off", "{:?}: reported intersection {:?} is {:.3e} / {:.3e} off the two lines", c, p, e1, e2);
                     vensure!((p.x - ex).abs() <= 1e-6 && (p.y - ey).abs() <= 1e-6, "line-line/point-off", "{:?}: reported {:?}, exact ({}, {})", c, p, ex, ey);
                     st.nontrivial = true;
+                    let sine = (cr as f64).abs() / (((ux * ux + uy * uy) as f64).sqrt() * ((vx * vx + vy * vy) as f64).sqrt());
+                    if sine < 1e-5 {
+                        st.label("nearly-parallel-lines-judged");
+                    }
                 } else {
                     st.label("far-intersection-not-judged");
                 }
@@ -419,12 +427,14 @@ fn near(c: &Case) -> CaseResult {
             let (ra, rb) = (5.0 * *m1 as f64 * q, 5.0 * *m2 as f64 * q);
             let delta = 5.0 * *k as f64 * e30;
             let (big, small) = if ra >= rb { (ra, rb) } else { (rb, ra) };
-            // keep the radii comparable so that the radical line is well away from both tangent positions
-            if small * 2.0 < big || small < 1.0 || big > 1000.0 {
+            if small < 0.09 || big > 1000.0 {
                 return Ok(st);
             }
+            if small * 2.0 < big {
+                st.label("near-tangent-circles-of-very-different-size");
+            }
             let (base, want) = if *inner {
-                if big - small < small / 2.0 {
+                if big - small < 0.09 {
                     return Ok(st);
                 }
                 // inside tangency: closer than (R-r) => the small circle lies strictly inside => None; farther => two points
@@ -505,6 +515,8 @@ fn near_cases() -> impl Strategy<Value = Case> {
             let m2 = ((m1 as u64 * f as u64) >> 10).clamp(205, 204_800) as u32;
             Case::NearCC { x, y, m1, m2, dir, k, crossing, inner }
         }),
+        // radii of very different size (ratios up to 10^4): the radical line then passes very close to the tangent point
+        2 => (coord(), coord(), m(), 20u32..=2048, 0u8..12, k(), any::<bool>(), any::<bool>()).prop_map(|(x, y, m1, m2, dir, k, crossing, inner)| Case::NearCC { x, y, m1, m2, dir, k, crossing, inner }),
         2 => (coord(), coord(), m(), 0u8..12, k(), any::<bool>()).prop_map(|(x, y, m, dir, k, crossing)| Case::NearCL { x, y, m, dir, k, crossing }),
     ]
 }
@@ -546,6 +558,30 @@ fn lattice_cases(r: i32) -> impl Strategy<Value = Case> {
             let p2 = if same { (p1.0 + 2 * d.0, p1.1 + 2 * d.1) } else { (p1.0 + shift.0, p1.1 + shift.1) };
             Case::LatLL { p1, q1, p2, q2: (p2.0 + k * d.0, p2.1 + k * d.1) }
         }),
+        // nearly parallel lines through lattice points with coordinates up to 1000 that meet in a lattice point:
+        // direction d = (p, q) and its unimodular partner d' = (x + p, y + q) with p*y - q*x = 1, so cross(d, d') = 1
+        // and the sine of the angle is 1/(|d||d'|), down to ~5e-7 - still hundreds of times the 1e-9 tolerance
+        2 => (20i32..=1900, -1900i32..=1900, -700i32..=700, -700i32..=700, any::<bool>(), 0u8..3).prop_map(|(p0, q0, ox, oy, flip, scale)| {
+            fn egcd(a: i64, b: i64) -> (i64, i64, i64) {
+                if b == 0 { (a, 1, 0) } else { let (g, x, y) = egcd(b, a % b); (g, y, x - (a / b) * y) }
+            }
+            let (g, _, _) = egcd(p0 as i64, q0 as i64);
+            let (pp, qq) = ((p0 as i64 / g.abs().max(1)) as i32, (q0 as i64 / g.abs().max(1)) as i32);
+            // u*pp + v*qq = 1  =>  pp*y - qq*x = 1 with y = u, x = -v
+            let (_, u, v) = egcd(pp as i64, qq as i64);
+            let (x, y) = (-(v as i32), u as i32);
+            let d = (pp, qq);
+            // reduce the Bezout vector into (-p/2, p/2]: (x, y) -> (x - t p, y - t q) keeps p*y - q*x = 1
+            let t = if pp != 0 { (2 * x + pp).div_euclid(2 * pp) } else { 0 };
+            let (x, y) = (x - t * pp, y - t * qq);
+            let pt0 = (-(pp / 2) + ox, -(qq / 2) + oy);
+            let b = (pt0.0 + d.0, pt0.1 + d.1);
+            let _ = scale;
+            // (the offsets ox, oy move the pair away from the origin: the lines' constant terms then reach several hundred)
+            // second line from the shared END point b back towards pt0 with direction d' = (x, y) - d  (cross(d, d') = 1)
+            let c2 = (b.0 + x - d.0, b.1 + y - d.1);
+            if flip { Case::LatLL { p1: pt0, q1: b, p2: b, q2: c2 } } else { Case::LatLL { p1: c2, q1: b, p2: b, q2: pt0 } }
+        }),
         2 => (lat(r), 1..=r, lat(r)).prop_map(|(c, r, p)| Case::LatPos { c, r, p }),
         1 => (lat(r), prop::sample::select(TRIPLES.to_vec()), sgn(), sgn()).prop_map(|(c, (a, b, h), sa, sb)| Case::LatPos { c, r: h, p: (c.0 + sa * a, c.1 + sb * b) }),
         2 => (lat(r), lat(r), lat(r)).prop_map(|(p, q, x)| Case::LatContains { p, q, x }),
@@ -569,11 +605,11 @@ fn main() {
     ctx.rule(
         "Cases: (i) integer-lattice configurations - all circle-circle pairs with centres in [-4,4]^2 and radii 1..=4 (quick; [-6,6], 1..=6 \
          thorough) exhaustively, then generated circles/lines/points on [-12,12] (quick) / [-40,40] (thorough) incl. Pythagorean tangencies \
-         (tangent circles, axis-parallel and oblique tangent lines, border points); the kind (none / touch inside / touch outside / two \
+         (tangent circles, axis-parallel and oblique tangent lines, border points) and nearly parallel lines through lattice points up to 1000 that meet in a lattice point (sine of the angle down to 1e-7); the kind (none / touch inside / touch outside / two \
          points / same; none / touch / two points; parallel or not; inside/border/outside; on line or not) is decided exactly in integer \
          arithmetic, and non-degenerate lattice gaps are >= 3.9e-7 >> the library's 1e-9; (ii) real-valued configurations in milli-units \
          (coordinates +-1e3, radii 1e-2..1e3) constructed at least 2% of the radius sum (>= 2e-3) away from every kind boundary, so the \
-         expected kind is unambiguous and the chord well conditioned; (iii) constructed tangencies at arbitrary positions and angles; (iv) near-tangent configurations built from exactly representable binary fractions (centres k/1024, radii 5m/1024 in [1,1000], comparable radii, axis and 3-4-5 directions) whose gap to tangency is 5k*2^-30 in [1.9e-8, 7.6e-5] - 19 to 76000 times the library tolerance - on either side: only the kind and the number of points are judged there. \
+         expected kind is unambiguous and the chord well conditioned; (iii) constructed tangencies at arbitrary positions and angles; (iv) near-tangent configurations built from exactly representable binary fractions (centres k/1024, radii 5m/1024 in [1,1000], radii of comparable and of very different size, axis and 3-4-5 directions) whose gap to tangency is 5k*2^-30 in [1.9e-8, 7.6e-5] - 19 to 76000 times the library tolerance - on either side: only the kind and the number of points are judged there. \
          Oracle: reported kind = exact kind; every reported point within 1e-7 of every circle and of every line (line coefficients \
          recomputed by the harness from the defining points); two-point results match the exact chord within 1e-6; one point for touch \
          kinds (within 1e-6 of the constructed tangency where known), none for none/same; both argument orders / line directions. \
